@@ -15,7 +15,9 @@ MANIFEST = dict(
          "space (the six ASCII space characters, any amounts, leading/trailing) and any number of leading zeros in protocol, "
          "prefix length and ports, the parser returns exactly the filter the rule denotes, and the netlink attribute list "
          "built from it decodes (independent reference decoder) to that filter with source and destination exchanged for "
-         "uplink PDRs; unpack(convertSlice l) = l.  The model is tied to the tree on every run by a differential run of the "
+         "uplink PDRs; unpack(convertSlice l) = l.  The constants the model fixes (ParseUint bit sizes, keywords, separators, "
+         "attribute order and kinds, convertSlice shift/stride) are regenerated from flowdesc.go/gtp5g.go on every run (T-gen, "
+         "theorem C16_source_shape) and the model is tied to the tree by a differential run of the "
          "real ParseFlowDesc / newFlowDesc / convertSlice against the model on grammar-derived strings, near-miss mutations "
          "and arbitrary octet strings, evaluated inside Coq; the specification (denote, reference decoder) is also applied as "
          "a monitor to what the implementation returned, and go-gtp5gnl's DecodeFlowDesc is run on the encoded attributes.",
